@@ -1,2 +1,4 @@
+pub mod bytede;
 pub mod framework;
+pub mod fuzzing;
 pub mod props;
